@@ -20,13 +20,30 @@ vars == <<run, idx, ok>>
 Explains(cfg, e) ==
     LET c == e.c  r == e.r  t == cfg.text IN
     /\ r.st = "ok"
-    /\ CASE c.op = "new" -> SentinelOK(t) /\ r.n = Len(t)
+    /\ CASE c.op = "new" -> SentinelOK(t) /\ r.n = Len(t)       \* (r.sa is only used by MachineAgrees)
          [] c.op = "search" ->
               LET p == c.a.p IN
               /\ Len(p) >= 1 /\ \A i \in 1..Len(p) : p[i] # Sentinel(t) /\ p[i] \in Range(cfg.alpha)
               /\ r.kind \in {Absent, Partial, Complete}
               /\ BackwardSearchOK(p, t, r)
          [] OTHER -> FALSE
+
+\* Cross-check of the specification itself at the real constants (T = 64, the run's Occ rate): the
+\* backward-search machine over the Occ machine, run on the suffix array the code built, agrees with
+\* the definition.  A violation is an inconsistency of the spec (tool error), not a finding.
+RECURSIVE BSRun(_, _, _)
+BSRun(st, p, ix) == IF st.j > 0 /\ ~st.brk THEN BSRun(BSStep(st, p, ix), p, ix) ELSE st
+MachineAgrees ==
+    (idx > 1 /\ Rec[run].ev[idx].c.op = "search" /\ Rec[run].ev[1].r.st = "ok") =>
+        LET cfg == Rec[run].cfg  t == Rec[run].cfg.text  n == Len(Rec[run].cfg.text)
+            sa  == Rec[run].ev[1].r.sa
+            p   == Rec[run].ev[idx].c.a.p
+        IN  (n <= 200 /\ Len(p) <= 40 /\ IsSortedSA(sa, t) /\ \A i \in 1..Len(p) : p[i] \in Range(cfg.alpha)) =>
+               LET syms == Range(cfg.alpha) \cup {Sentinel(t)}
+                   ix   == MkIndexOn(t, sa, cfg.k, 64, syms, syms)
+                   res  == BSResult(BSRun(BSInit(n, Len(p)), p, ix))
+               IN  BackwardSearchOK(p, t, [kind |-> res.kind, lower |-> res.lower, upper |-> res.upper, len |-> res.len,
+                                           pos |-> [x \in 1..(res.upper - res.lower) |-> sa[res.lower + x]]])
 
 Init == run \in 1..Len(Rec) /\ idx = 0 /\ ok = TRUE
 Next ==
